@@ -22,7 +22,7 @@ RULE = (
     "(generic interior, a row with one coordinate on a special cell -- outside the spline tails / on a knot (zero pattern) / on an "
     "end-point --, a second generic row[, a mirrored row]) each with its own context row; ALL ordered batches with repetition of "
     "length <=3 (39; thorough <=4: 340) in forward and inverse direction. Distributions and flows: log_prob and transform_to_noise "
-    "on all such batches. Non-trivial = the batch contains >=2 different pool rows."
+    "on all such batches (the last pool row is a far-away point, x60, so that batch-wide stabilisers are seen). Non-trivial = the batch contains >=2 different pool rows."
 )
 ASSUMPTIONS = [
     "agreement to 1e-7*scale (float64; BLAS results differ by a few ulp between batch sizes and ill-conditioned solves / iterated autoregressive inverses amplify that up to 1e-9 relative, so bit-equality is not demanded; batch mixing gives O(1) differences)",
@@ -180,6 +180,10 @@ def run_dist_case(dname, cfg, pname, seed, tier, res=None, only=None):
     npool = 3 if tier == "quick" else 4
     maxlen = 3 if tier == "quick" else 4
     X = d.points(cfg, npool, seed)
+    if not d.binary:
+        # the last pool row is a far-away point (log-densities hundreds of nats below the others): a batch-wide
+        # stabiliser (global max in a log-sum-exp, batch statistic) shows up as a row that depends on its neighbours
+        X[npool - 1] = X[npool - 1] * 60.0
     CT = d.contexts(cfg, npool, seed)
     sig = DC.dev_signature(d, cfg)
     fns = [("log_prob", lambda x, c: obj.log_prob(x, context=c) if d.takes_context else obj.log_prob(x))]
@@ -223,6 +227,13 @@ def run_dist_case(dname, cfg, pname, seed, tier, res=None, only=None):
                 bad = "result has %d rows for a batch of %d" % (out.shape[0], len(b))
             else:
                 for pos, i in enumerate(b):
+                    fin = torch.isfinite(refs[i])
+                    if not bool(fin.all()):
+                        # non-finite alone (far row beyond the dtype): only the finiteness pattern is compared
+                        if not torch.equal(fin, torch.isfinite(out[pos])):
+                            bad = "row %d of batch %s (pool row %d): finite entries differ from the batch-size-1 evaluation" % (pos, list(b), i)
+                            break
+                        continue
                     sc = max(1.0, float(refs[i].abs().max()))
                     dd = float((out[pos] - refs[i]).abs().max())
                     if not dd <= 1e-7 * sc:
